@@ -19,6 +19,10 @@ import (
 type Step struct {
 	B      *gen.Tree    `json:"b"`
 	Policy model.Policy `json:"policy"`
+	// Asm != 0: the *Config source is not built by NewFrom but assembled with SetChild; bit i says whether the i-th
+	// object-valued entry (in traversal order) is a fresh config or a section adopted from another configuration,
+	// where it had a different name
+	Asm uint64 `json:"asm,omitempty"`
 }
 
 // Case is a chain A <- B1 ... Bk.
@@ -52,7 +56,11 @@ func genCase(t *rapid.T) Case {
 		if rapid.IntRange(0, 9).Draw(t, "flip") == 0 {
 			l = !l
 		}
-		c.Steps = append(c.Steps, Step{B: genTop(t, cfg, l), Policy: model.Policy(rapid.IntRange(0, int(model.NPolicies)-1).Draw(t, "policy"))})
+		st := Step{B: genTop(t, cfg, l), Policy: model.Policy(rapid.IntRange(0, int(model.NPolicies)-1).Draw(t, "policy"))}
+		if rapid.IntRange(0, 2).Draw(t, "assembled") == 0 {
+			st.Asm = rapid.Uint64().Draw(t, "asm") | 1<<63
+		}
+		c.Steps = append(c.Steps, st)
 	}
 	return c
 }
@@ -97,15 +105,67 @@ func deepOverlap(a, b *gen.Tree) bool {
 
 var reprNames = []string{"generic", "repr", "config"}
 
-func source(b *gen.Tree, kind int, used map[string]int) (interface{}, error) {
+func source(b *gen.Tree, kind int, used map[string]int, asm uint64) (interface{}, error) {
 	switch kind {
 	case 0:
 		return b.Go(), nil
 	case 1:
 		return b.GoRepr(nil, used)
 	default:
+		if asm != 0 && b.K == "obj" {
+			n := 0
+			return assemble(b, asm, &n)
+		}
 		return ucfg.NewFrom(b.Go())
 	}
+}
+
+// assemble builds the configuration holding the data of t the way an application composes one: the entries that
+// are no objects come from NewFrom, every object-valued entry is assembled on its own and attached with SetChild
+// - as a fresh configuration, or (bit set) as a section that is first attached to another configuration under
+// another name, taken out of it with Child and then adopted under its name here.
+func assemble(t *gen.Tree, asm uint64, n *int) (*ucfg.Config, error) {
+	plain := gen.Obj()
+	for i, k := range t.Keys {
+		if t.Vals[i].K != "obj" {
+			plain.Put(k, t.Vals[i])
+		}
+	}
+	cfg, err := ucfg.NewFrom(plain.Go())
+	if err != nil {
+		return nil, err
+	}
+	for i, k := range t.Keys {
+		if t.Vals[i].K != "obj" {
+			continue
+		}
+		child, err := assemble(t.Vals[i], asm, n)
+		if err != nil {
+			return nil, err
+		}
+		adopt := asm>>(uint(*n)%63)&1 == 1
+		*n++
+		if adopt {
+			other := "other"
+			for _, o := range t.Keys {
+				if o != k {
+					other = o // the name of a sibling: a stale name would collide
+					break
+				}
+			}
+			donor := ucfg.New()
+			if err := donor.SetChild(other, -1, child); err != nil {
+				return nil, fmt.Errorf("SetChild(%q) on the donor failed: %v", other, err)
+			}
+			if child, err = donor.Child(other, -1); err != nil {
+				return nil, fmt.Errorf("Child(%q) of the donor failed: %v", other, err)
+			}
+		}
+		if err := cfg.SetChild(k, -1, child); err != nil {
+			return nil, fmt.Errorf("SetChild(%q) failed: %v", k, err)
+		}
+	}
+	return cfg, nil
 }
 
 func runCase(c Case, r *runlog.R) error {
@@ -140,12 +200,13 @@ func runCase(c Case, r *runlog.R) error {
 		model.MergeCont(st.Policy, nil, m, model.FromTree(b))
 		want := m.Reify()
 		for k, cfg := range cfgs {
-			src, err := source(b, k, used)
+			src, err := source(b, k, used, st.Asm)
 			if err != nil {
 				return fmt.Errorf("step %d: building the %s source failed: %v", si, reprNames[k], err)
 			}
 			if sc, ok := src.(*ucfg.Config); ok && k == 2 {
 				keptSrc = append(keptSrc, kept{sc, b, st.Policy})
+				r.ClassIf(st.Asm != 0 && b.K == "obj", "*Config source assembled with SetChild (fresh and adopted sections)")
 			}
 			err = uc.Safe("Merge", func() error { return cfg.Merge(src, uc.PolicyOpts(st.Policy)...) })
 			if err != nil {
